@@ -269,6 +269,25 @@ func oracleC04(c SnapCase) (o report.Outcome) {
 					if li.maxVisits >= 3 {
 						tags = append(tags, "maxVisits>=3")
 					}
+					// root cause marker of known finding F12: the location lies in a hole that was attached to a polygon whose
+					// shell is cancelled by an identical hole (a zero-area island kept by dedupeInnersOuters), while an enclosing
+					// polygon covers it
+					for _, rs := range outRings {
+						if len(rs) < 3 || len(rs[0]) < 3 || kernel.PointInRing(p, rs[0]) < 0 {
+							continue
+						}
+						cancelled, inOtherHole := false, false
+						for _, h := range rs[1:] {
+							if cyclicEqual(kernel.Reversed(h), rs[0]) {
+								cancelled = true
+							} else if len(h) >= 3 && kernel.PointInRing(p, h) > 0 {
+								inOtherHole = true
+							}
+						}
+						if cancelled && inOtherHole && !inIn && inOut {
+							tags = append(tags, "hole-in-cancelled-shell")
+						}
+					}
 					o.Failf(tags, "tile matrix %d: location (%v, %v) is farther than one pixel from the input boundary and inside the input: %v, but inside the output: %v; routed boundary %v; returned %v",
 						id, kernel.FromFixed(lo.X)+float64(p.X)/8e10, kernel.FromFixed(lo.Y)+float64(p.Y)/8e10, inIn, inOut, li.chains, fmt.Sprint(polys))
 					return o
